@@ -118,16 +118,42 @@ type inst struct {
 
 var defaultProbes = []string{"a/", "a/b/", "a/b/c/", "b/"}
 
-// newInstVariant: the collision variant starts with W already watching a/ and probes the colliding channels.
+// variants of the search besides the main one: initial operations (applied before the search starts), alphabet, status probes.
+type variantDef struct {
+	pre    []opDesc
+	ops    func() []opDesc
+	probes []string
+}
+
+// reservedAlphabet: channels whose levels are spelled like the words the broker reserves for its own bookkeeping
+// ("presence", "query" are the names of system subscriptions): to a client they are ordinary channel names.
+func reservedAlphabet() []opDesc {
+	var ops []opDesc
+	for _, ch := range []string{"presence/lobby/", "query/x/"} {
+		ops = append(ops, opDesc{"sub", 1, ch}, opDesc{"unsub", 1, ch})
+	}
+	ops = append(ops, opDesc{"sub", 2, "presence/lobby/"}, opDesc{Kind: "disconnect", C: 1})
+	return ops
+}
+
+var variants = map[string]variantDef{
+	"collisions":     {pre: []opDesc{{"watch", 0, "a/"}}, ops: collisionAlphabet, probes: append([]string{"a/"}, collChans...)},
+	"reserved-names": {pre: []opDesc{{"watch", 0, "presence/"}, {"watch", 0, "query/"}}, ops: reservedAlphabet, probes: []string{"presence/", "presence/lobby/", "query/", "query/x/"}},
+}
+
+// newInstVariant: a variant starts with its initial operations already applied and probes its own channels.
 func (w *workerEnv) newInstVariant(variant string) *inst {
-	if variant != "collisions" {
+	v, ok := variants[variant]
+	if !ok {
 		return w.newInst(alphabet())
 	}
-	in := w.newInst(append([]opDesc{{"watch", 0, "a/"}}, collisionAlphabet()...))
-	in.probes = append([]string{"a/"}, collChans...)
-	in.Apply(0)
+	in := w.newInst(append(append([]opDesc{}, v.pre...), v.ops()...))
+	in.probes = v.probes
+	for i := range v.pre {
+		in.Apply(i)
+	}
 	in.hist = nil
-	in.ops = in.ops[1:]
+	in.ops = in.ops[len(v.pre):]
 	return in
 }
 
@@ -384,6 +410,7 @@ func run(c *core.Ctx) {
 	}
 	search(c, "", alphabet(), depth)
 	search(c, "collisions", collisionAlphabet(), depth)
+	search(c, "reserved-names", reservedAlphabet(), depth)
 	c.Assume("single broker (cluster presence survey not configured); notifications are awaited through a FIFO barrier on the real presence queue")
 }
 
